@@ -57,7 +57,8 @@ void vs_reset(void) {
 
 static int vs_slot(void) {
   if (vs.nfd >= VS_NFD) return -1;
-  int i = vs.nfd++;
+  int i = (vs.nfd + VS_ROT) % VS_NFD;
+  vs.nfd++;
   vfd_peer[i] = -1;
   return i;
 }
